@@ -22,7 +22,9 @@ const (
 	protocolOfflineID                  = "cmp/presign-offline"
 	protocolOnlineID                   = "cmp/presign-online"
 	protocolFullID                     = "cmp/presign-full"
-	protocolOfflineRounds round.Number = 7
+	// The offline protocol ends after round 7, but a failed chi check continues with the identification
+	// round abort2, which is round 8: its messages must be admitted too.
+	protocolOfflineRounds round.Number = 8
 	protocolFullRounds    round.Number = 8
 )
 
